@@ -82,7 +82,7 @@ def faulty_member(rng, kind, base):
         toks = A.prop_tokens(base)
         for _ in range(20):
             m = gen.mutate_tokens(rng, toks, rng.choice((1, 2)))
-            if grammar.verdict(m, 'file') == 'reject' and grammar.verdict(m, 'property') == 'reject':
+            if grammar.verdict_lexing_aware(m, 'file') == 'reject' and grammar.verdict_lexing_aware(m, 'property') == 'reject':
                 return m
         return toks + [')']
     raise ValueError(kind)
@@ -182,7 +182,7 @@ def run(ctx):
                 all_toks = []
                 for j, p in enumerate(members):
                     all_toks += bad_toks if j == pos else A.prop_tokens(p)
-                if grammar.verdict(all_toks, 'file') != 'reject':
+                if grammar.verdict_lexing_aware(all_toks, 'file') != 'reject':
                     ctx.skip('syntax-fault-fuses-with-neighbour')
                     continue
             alone = hplapi.outcome(PP.parse, bad_text)
